@@ -17,27 +17,27 @@ import (
 
 // crashSite is one construct of the generator that can raise a Go panic.
 type crashSite struct {
-	Key   string // "<pkg>.<func>:<kind>:<detail>"
-	Pos   token.Pos
-	Kind  string
-	What  string
-	Func  string
-	Pkg   string
+	Key  string // "<pkg>.<func>:<kind>:<detail>"
+	Pos  token.Pos
+	Kind string
+	What string
+	Func string
+	Pkg  string
 }
 
 // crashReasons is the frozen table "this site cannot fire, because …" (one line of reason per entry;
 // entries with a side condition name the machine check that re-validates it on every run).
 var crashReasons = map[string]struct{ reason, side string }{
-	"builder.writeStaticCode:must:template.Must":          {"the template text is a constant that parses and executes for all 32 parameter vectors", "variants"},
-	"builder.writeStaticCode:must:regexp.MustCompile#1":   {"constant pattern; the checker compiles the same literal", "variants"},
-	"builder.writeStaticCode:must:regexp.MustCompile#2":   {"constant pattern; the checker compiles the same literal", "variants"},
-	"builder.writeStaticCode:panic#1":                     {"template execution error: excluded by the 32-variant instantiation", "variants"},
-	"builder.writeStaticCode:panic#2":                     {"bytes.Buffer.WriteString never returns an error", ""},
-	"ast.Walk:panic#1":                                    {"default of the kind switch: every expression kind and Grammar/Rule has a case", "walk-exhaustive"},
-	"main.main:assert:g.(*ast.Grammar)":                   {"the start rule Grammar's action returns *ast.Grammar and ParseReader returned no error", "grammar-action"},
-	"builder.rangeTable:panic#1":                          {"class names reaching the builder were accepted by the front-end against unicodeClasses, every entry of which is a key of the unicode tables", "unicode-classes"},
-	"main.main:panic#1":                                   {"re-raises a panic that is already in flight (guarded by r := recover(); r != nil); it cannot originate one", "repanic"},
-	"main.toAnySlice:assert:v.([]any)":                    {"called only from grammar actions, which run under the front-end parser's recover handler (C13-c)", "actions-only"},
+	"builder.writeStaticCode:must:template.Must":           {"the template text is a constant that parses and executes for all 32 parameter vectors", "variants"},
+	"builder.writeStaticCode:must:regexp.MustCompile#1":    {"constant pattern; the checker compiles the same literal", "variants"},
+	"builder.writeStaticCode:must:regexp.MustCompile#2":    {"constant pattern; the checker compiles the same literal", "variants"},
+	"builder.writeStaticCode:panic#1":                      {"template execution error: excluded by the 32-variant instantiation", "variants"},
+	"builder.writeStaticCode:panic#2":                      {"bytes.Buffer.WriteString never returns an error", ""},
+	"ast.Walk:panic#1":                                     {"default of the kind switch: every expression kind and Grammar/Rule has a case", "walk-exhaustive"},
+	"main.main:assert:g.(*ast.Grammar)":                    {"the start rule Grammar's action returns *ast.Grammar and ParseReader returned no error", "grammar-action"},
+	"builder.rangeTable:panic#1":                           {"class names reaching the builder were accepted by the front-end against unicodeClasses, every entry of which is a key of the unicode tables", "unicode-classes"},
+	"main.main:panic#1":                                    {"re-raises a panic that is already in flight (guarded by r := recover(); r != nil); it cannot originate one", "repanic"},
+	"main.toAnySlice:assert:v.([]any)":                     {"called only from grammar actions, which run under the front-end parser's recover handler (C13-c)", "actions-only"},
 	"builder.ComputeLeftRecursives:mapderef:rules[name]#1": {"name ranges over an SCC with more than one vertex; only defined rules have out-edges in the first-graph, so every member is a key of rules", "firstgraph"},
 	"builder.ComputeLeftRecursives:mapderef:rules[leader]": {"findLeader returns a member of that SCC", "firstgraph"},
 	"builder.ComputeLeftRecursives:mapderef:rules[name]#2": {"guarded by graph[name][name]: only defined rules have out-edges", "firstgraph"},
@@ -241,6 +241,67 @@ func keyFromOwnKeySet(g *load.G, s crashSite) string {
 	if slice == "" {
 		return ""
 	}
+	if okKeys := sliceHoldsOnlyKeysOf(fd, slice, m); okKeys {
+		return "the key ranges over a slice filled only with the keys of " + m + " in this function, and " + m + " is not modified there"
+	}
+	// the slice comes from a helper of the package called with the map: F(m) returns a slice filled only with the keys
+	// of its parameter (sorting it does not change its elements), and m is not modified in this function
+	var rngX ast.Expr
+	ast.Inspect(fd.Body, func(n ast.Node) bool {
+		if rs, ok := n.(*ast.RangeStmt); ok && rs.Value != nil && nospace(rs.Value) == k && rs.Pos() <= s.Pos && s.Pos < rs.End() {
+			rngX = rs.X
+		}
+		return true
+	})
+	if ce, ok := rngX.(*ast.CallExpr); ok && len(ce.Args) == 1 && nospace(ce.Args[0]) == m {
+		written := false
+		ast.Inspect(fd.Body, func(n ast.Node) bool {
+			switch x := n.(type) {
+			case *ast.AssignStmt:
+				for _, l := range x.Lhs {
+					if strings.HasPrefix(nospace(l), m+"[") {
+						written = true
+					}
+				}
+			case *ast.CallExpr:
+				if callName(x) == "delete" && len(x.Args) == 2 && nospace(x.Args[0]) == m {
+					written = true
+				}
+			}
+			return true
+		})
+		for _, sfx := range []string{"", "ast", "builder"} {
+			for _, callee := range load.AllFuncDecls(g.Pkg(sfx)) {
+				if callee.Body == nil || callee.Recv != nil || callee.Name.Name != callSel(ce) || callee.Type.Params == nil || len(callee.Type.Params.List) != 1 || len(callee.Type.Params.List[0].Names) != 1 {
+					continue
+				}
+				pm := callee.Type.Params.List[0].Names[0].Name
+				rets := returnsOf(callee)
+				okRet := len(rets) > 0
+				retVar := ""
+				for _, rs := range rets {
+					if len(rs.Results) != 1 {
+						okRet = false
+						continue
+					}
+					if id, ok := rs.Results[0].(*ast.Ident); ok && (retVar == "" || retVar == id.Name) {
+						retVar = id.Name
+					} else {
+						okRet = false
+					}
+				}
+				if okRet && !written && sliceHoldsOnlyKeysOf(callee, retVar, pm) {
+					return "the key ranges over " + nospace(rngX) + ", and " + callee.Name.Name + " returns a slice filled only with the keys of its argument; " + m + " is not modified in this function"
+				}
+			}
+		}
+	}
+	return ""
+}
+
+// sliceHoldsOnlyKeysOf: inside fd every store to the slice variable `slice` is `slice = append(slice, key)` within
+// `for key := range m` (or its make / declaration), and m is not modified in fd.
+func sliceHoldsOnlyKeysOf(fd *ast.FuncDecl, slice, m string) bool {
 	// every store to S is `S = append(S, key)` inside `for key := range M`, or its make/declaration
 	okFill, other := false, false
 	ast.Inspect(fd.Body, func(n ast.Node) bool {
@@ -279,10 +340,7 @@ func keyFromOwnKeySet(g *load.G, s crashSite) string {
 		}
 		return true
 	})
-	if okFill && !other {
-		return "the key ranges over a slice filled only with the keys of " + m + " in this function, and " + m + " is not modified there"
-	}
-	return ""
+	return okFill && !other
 }
 
 // commaOK reports whether the type assertion is used in `v, ok := x.(T)` / `v, ok = x.(T)` form.
@@ -347,25 +405,43 @@ func c13SideConditions(c *Ctx, g *load.G) map[string]string {
 		out["firstgraph"] = "MakeFirstGraph not found"
 	} else {
 		okEdges, okEmpty := false, false
-		nAssign := 0
+		nOther := 0
+		gvar := ""
+		if rets := returnsOf(mg); len(rets) == 1 && len(rets[0].Results) == 1 {
+			gvar = nospace(rets[0].Results[0])
+		}
+		rulesParam := firstParam(mg)
 		ast.Inspect(mg.Body, func(n ast.Node) bool {
 			as, ok := n.(*ast.AssignStmt)
-			if !ok || !strings.HasPrefix(nospace(as.Lhs[0]), "graph[") {
+			if !ok || gvar == "" || !strings.HasPrefix(nospace(as.Lhs[0]), gvar+"[") {
 				return true
 			}
-			nAssign++
-			switch nospace(as.Lhs[0]) {
-			case "graph[rulename]":
-				okEdges = true
-			case "graph[vertex]":
-				if strings.HasPrefix(nospace(as.Rhs[0]), "make(map[string]struct{}") {
-					okEmpty = true
+			ix, ok := as.Lhs[0].(*ast.IndexExpr)
+			if !ok {
+				return true
+			}
+			key := nospace(ix.Index)
+			// (a) the key is the iteration key of a range over the rules parameter: out-edges only for defined rules
+			isRuleKey := false
+			ast.Inspect(mg.Body, func(m ast.Node) bool {
+				if rs, ok := m.(*ast.RangeStmt); ok && rs.Key != nil && nospace(rs.Key) == key && nospace(rs.X) == rulesParam && rs.Pos() <= as.Pos() && as.Pos() < rs.End() {
+					isRuleKey = true
 				}
+				return true
+			})
+			rhs := nospace(as.Rhs[0])
+			switch {
+			case isRuleKey:
+				okEdges = true
+			case strings.HasPrefix(rhs, "make(map[string]struct{}") || rhs == "map[string]struct{}{}":
+				okEmpty = true
+			default:
+				nOther++
 			}
 			return true
 		})
-		if !(okEdges && okEmpty && nAssign == 2) {
-			out["firstgraph"] = fmt.Sprintf("MakeFirstGraph no longer has the shape 'edges for rules, empty sets for other vertices' (assignments=%d)", nAssign)
+		if !(okEdges && okEmpty && nOther == 0) {
+			out["firstgraph"] = fmt.Sprintf("MakeFirstGraph no longer has the shape 'edges for rules, empty sets for other vertices' (edges-for-rule-keys=%t empty-sets=%t other stores=%d)", okEdges, okEmpty, nOther)
 		}
 		// the SCC-size / self-loop guards around the dereferences
 		cl := load.FuncDecl(g.Pkg("builder"), "", "ComputeLeftRecursives")
@@ -377,7 +453,7 @@ func c13SideConditions(c *Ctx, g *load.G) map[string]string {
 				}
 				if ix, ok := sel.X.(*ast.IndexExpr); ok && nospace(ix.X) == "rules" {
 					gs := strings.Join(guardsOf(cl.Body, sel.Pos()), ";")
-					if !(strings.HasPrefix(gs, "len(scc)>1") || strings.HasPrefix(gs, "!(len(scc)>1);ok")) {
+					if !(strings.HasPrefix(gs, "len(scc)>1") || strings.HasPrefix(gs, "len(scc)<=1;ok")) {
 						out["firstgraph"] = "dereference of " + nospace(ix) + " under [" + gs + "], expected under len(scc)>1 or the self-loop test"
 					}
 				}
@@ -726,11 +802,12 @@ func c13Exit(c *Ctx, g *load.G) {
 				continue // exit(exitCode): argument checked at the call sites
 			}
 			gs := strings.Join(guardsOf(fd.Body, ce.Pos()), ";")
+			hv, lv := flagVar(mf, "h"), flagVar(mf, "help")
 			switch {
 			case v < 0:
 				bad = append(bad, g.Where(ce.Pos())+": exit with a non-constant status")
-			case v == 0 && gs != "*shortHelpFlag||*longHelpFlag":
-				bad = append(bad, g.Where(ce.Pos())+": exit(0) under ["+gs+"]")
+			case v == 0 && !(hv != "" && lv != "" && (gs == "*"+hv+"||*"+lv || gs == "*"+lv+"||*"+hv)):
+				bad = append(bad, g.Where(ce.Pos())+": exit(0) under ["+gs+"], expected only under the two help flags")
 			}
 		}
 	}
@@ -757,19 +834,47 @@ func c13Exit(c *Ctx, g *load.G) {
 		}
 		return true
 	})
-	for _, ce := range callsIn(mf.Body) {
-		switch callName(ce) {
-		case "builder.BuildParser":
-			if gs := strings.Join(guardsOf(mf.Body, ce.Pos()), ";"); gs != "!*noBuildFlag" {
-				badFlags = append(badFlags, "the parser is built under ["+gs+"] instead of exactly !*noBuildFlag")
+	// the facts about flag variables that hold where main reaches each phase (directly or through a helper of the package)
+	flagNames := map[string]bool{}
+	for _, v := range flagDefs(mf) {
+		flagNames[v] = true
+	}
+	flagFacts := func(pos token.Pos) string {
+		var out []string
+		hv, lv := flagVar(mf, "h"), flagVar(mf, "help")
+		for _, f := range factsAt(mf.Body, pos) {
+			if hv != "" && lv != "" && (f == "!*"+hv+"&&!*"+lv || f == "!*"+lv+"&&!*"+hv) {
+				continue // the help flags were not given (their branch exits with status 0)
 			}
-		case "ast.Optimize":
-			if gs := strings.Join(guardsOf(mf.Body, ce.Pos()), ";"); gs != "!*noBuildFlag;*optimizeGrammar" {
-				badFlags = append(badFlags, "the grammar optimizer runs under ["+gs+"] instead of exactly *optimizeGrammar (inside !*noBuildFlag)")
+			for v := range flagNames {
+				if strings.Contains(f, "*"+v) {
+					out = append(out, f)
+					break
+				}
 			}
-		case "imports.Process":
-			if gs := strings.Join(guardsOf(mf.Body, ce.Pos()), ";"); gs != "!*noBuildFlag" {
-				badFlags = append(badFlags, "formatting runs under ["+gs+"]")
+		}
+		sort.Strings(out)
+		return strings.Join(out, ";")
+	}
+	noBuild, optGrammar := flagVar(mf, "x"), flagVar(mf, "optimize-grammar")
+	if noBuild == "" || optGrammar == "" {
+		badFlags = append(badFlags, "the -x / -optimize-grammar flags are not defined with fs.Bool in main")
+	}
+	wantBuild := "!*" + noBuild
+	wantOpt := []string{"!*" + noBuild, "*" + optGrammar}
+	sort.Strings(wantOpt)
+	for _, phase := range []struct{ callee, want, what string }{
+		{"builder.BuildParser", wantBuild, "the parser is built"},
+		{"ast.Optimize", strings.Join(wantOpt, ";"), "the grammar optimizer runs"},
+		{"imports.Process", wantBuild, "formatting runs"},
+	} {
+		sites := reachingCallsIn(root, mf, phase.callee)
+		if len(sites) == 0 {
+			badFlags = append(badFlags, phase.callee+" is not reached from main")
+		}
+		for _, ce := range sites {
+			if got := flagFacts(ce.Pos()); got != phase.want {
+				badFlags = append(badFlags, phase.what+" under ["+got+"] instead of exactly ["+phase.want+"]")
 			}
 		}
 	}
@@ -1191,8 +1296,8 @@ func c13IO(c *Ctx, g *load.G) {
 		detail := "no " + spec.call + "(" + fp + ") call"
 		for _, ce := range callsIn(fd.Body) {
 			if callName(ce) == spec.call && len(ce.Args) == 1 && nospace(ce.Args[0]) == fp {
-				gs := guardsOf(fd.Body, ce.Pos())
-				ok = len(gs) == 1 && gs[0] == fp+`!=""`
+				gs := factsAt(fd.Body, ce.Pos())
+				ok = len(gs) == 1 && nonEmptyTest(gs[0], fp)
 				detail = spec.call + "(" + fp + ") happens under [" + strings.Join(gs, ";") + "], expected exactly " + fp + ` != ""` + ": the tool reads or writes the wrong stream, or fails on the default stream"
 			}
 		}
@@ -1483,4 +1588,74 @@ func c13ConstIndex(c *Ctx, g *load.G) {
 		}
 	}
 	r.Min("C13-j constant subscripts", 6, n)
+}
+
+// flagDefs maps flag name -> variable for the flags main defines with <flagset>.Bool / .String (assignment or var spec).
+func flagDefs(mf *ast.FuncDecl) map[string]string {
+	out := map[string]string{}
+	reg := func(lhs string, rhs ast.Expr) {
+		if ce, ok := rhs.(*ast.CallExpr); ok && (callSel(ce) == "Bool" || callSel(ce) == "String") && len(ce.Args) == 3 {
+			if bl, ok := ce.Args[0].(*ast.BasicLit); ok && bl.Kind == token.STRING {
+				out[strings.Trim(bl.Value, `"`)] = lhs
+			}
+		}
+	}
+	ast.Inspect(mf.Body, func(n ast.Node) bool {
+		switch x := n.(type) {
+		case *ast.AssignStmt:
+			if len(x.Lhs) == 1 && len(x.Rhs) == 1 {
+				reg(nospace(x.Lhs[0]), x.Rhs[0])
+			}
+		case *ast.ValueSpec:
+			for i, nm := range x.Names {
+				if i < len(x.Values) {
+					reg(nm.Name, x.Values[i])
+				}
+			}
+		}
+		return true
+	})
+	return out
+}
+
+// flagVar returns the variable that main defines for the flag of the given name ("" if none).
+func flagVar(mf *ast.FuncDecl, flag string) string { return flagDefs(mf)[flag] }
+
+// reachingCallsIn lists the calls inside fd that are calls of target, or of a function of the package (generated
+// front-end excluded) that calls target directly or through other such functions.
+func reachingCallsIn(pkg *packages.Package, fd *ast.FuncDecl, target string) []*ast.CallExpr {
+	reaches := map[string]bool{}
+	decls := map[string]*ast.FuncDecl{}
+	for i, f := range pkg.Syntax {
+		if strings.HasSuffix(pkg.CompiledGoFiles[i], "/pigeon.go") || strings.HasSuffix(pkg.CompiledGoFiles[i], "_test.go") {
+			continue
+		}
+		for _, d := range f.Decls {
+			if x, ok := d.(*ast.FuncDecl); ok && x.Recv == nil && x.Body != nil {
+				decls[x.Name.Name] = x
+			}
+		}
+	}
+	for changed := true; changed; {
+		changed = false
+		for name, d := range decls {
+			if reaches[name] || d == fd {
+				continue
+			}
+			for _, ce := range callsIn(d.Body) {
+				if cn := callName(ce); cn == target || reaches[cn] {
+					reaches[name] = true
+					changed = true
+					break
+				}
+			}
+		}
+	}
+	var out []*ast.CallExpr
+	for _, ce := range callsIn(fd.Body) {
+		if cn := callName(ce); cn == target || reaches[cn] {
+			out = append(out, ce)
+		}
+	}
+	return out
 }
